@@ -4,6 +4,8 @@ CONSTANTS
   Redispatch = TRUE
   StartStates = {"VIRGIN", "QUEUED", "INITIALIZING", "INCOMPLETE", "DOWNLOADING", "UPLOADING", "COMPLETE", "FAILED", "ABORTED", "PAUSED"}
   Dirs = {"up", "down"}
+  Lst2Kinds = {"none"}
+  WithLoad = FALSE
 CONSTRAINT Mutex
 CONSTRAINT HolderInBody
 ACTION_CONSTRAINT LegalEdgesC
